@@ -892,10 +892,12 @@ class Merger:
             self.logger.debug(
                 "Merged document is now:", prefix="Merger::merge_with:  ",
                 data=self.data, footer="     ***** ***** *****")
-            if (insert_at.is_root
+            if ((insert_at.is_root or self.data is rhs)
                     and isinstance(rhs, (dict, list, CommentedSet, set))):
-                # RHS has become the whole document; only Scalar values and
-                # deeper insertion points need further processing
+                # RHS has become the whole document (also when the insertion
+                # point begins with a wildcard or search, for which nothing
+                # can be built); only Scalar values and buildable, deeper
+                # insertion points need further processing
                 return
 
         # Resolve any anchor conflicts
